@@ -18,7 +18,7 @@ from ..harness import WORK, watchdog, WatchdogTimeout, digest, jsonable
 from ..monitors import StageTrace
 
 MANIFEST = {
-    'text': 'Held on every stage event recorded: each of the six sift variants (mask_sift with all four mask-frequency sources) is called with non-default option groups delivered by keyword dicts, by SiftConfig unpacking and by the get_func partial, with 1-3 worker processes; every get_next_imf / interp_envelope / get_padded_extrema call made in any process on behalf of the call is logged with its effective keyword arguments and checked against the supplied options. The grid (variant x option sets x route x nprocesses) is enumerated completely in the thorough tier and sampled in the quick tier; the run is inconclusive unless every (variant, route) cell produced events and multi-process calls produced events from >= 2 worker pids.',
+    'text': 'Held on every stage event recorded: each of the six sift variants (mask_sift with all four mask-frequency sources) and the public helpers get_next_imf_mask / get_mask_freqs is called with non-default option groups delivered by keyword dicts, by SiftConfig unpacking and by the get_func partial, with 1-3 worker processes; every get_next_imf / interp_envelope / get_padded_extrema call made in any process on behalf of the call is logged with its effective keyword arguments and checked against the supplied options. The grid (variant x option sets x route x nprocesses) is enumerated completely in the thorough tier and sampled in the quick tier; the run is inconclusive unless every (variant, route) cell produced events and multi-process calls produced events from >= 2 worker pids.',
     'note': 'Trusted: the wrappers see exactly what the callee receives (functools.wraps closures on module attributes; fork start method asserted). Location padding is kept at odd reflection (other np.pad modes cannot reach below 0, an input-validity matter).',
     'technique': 'offline trace-specification checker over per-process event logs written by recording wrappers on the real stage functions (incl. forked workers)',
 }
@@ -28,7 +28,7 @@ RULE = ('grid variant x imf option set (3) x interpolation (2) x extrema option 
         '(variant, route) cell forced, thorough = whole grid; non-trivial = the call produced stage events of all three '
         'stages; distinct by grid cell')
 EXHAUSTIVE = {'quick': False, 'thorough': True}
-EXHAUSTIVE_SCOPE = {'thorough': 'the full grid named in rule: 1242 cells x 3 signals'}
+EXHAUSTIVE_SCOPE = {'thorough': 'the full grid named in rule (1314 cells incl. the two stage-level helpers) x 3 signals'}
 ASSUMPTIONS = ['extrema events issued outside a traced envelope call (amplitude estimation inside the instantaneous-frequency mask estimate) are not sift stages and are ignored']
 
 IMF = [{'stop_method': 'rilling', 'rilling_thresh': (0.1, 0.8, 0.1), 'env_step_size': .5},
@@ -38,7 +38,7 @@ ENV = [{'interp_method': 'pchip'}, {'interp_method': 'mono_pchip'}]
 EXT = [{'pad_width': 3}, {'pad_width': 1, 'parabolic_extrema': True},
        {'pad_width': 2, 'mag_pad_opts': {'mode': 'mean', 'stat_length': 2}}]
 VARIANTS = ['sift', 'mask_sift:zc', 'mask_sift:if', 'mask_sift:float', 'mask_sift:list', 'ensemble_sift',
-            'complete_ensemble_sift', 'sift_second_layer', 'mask_sift_second_layer']
+            'complete_ensemble_sift', 'sift_second_layer', 'mask_sift_second_layer', 'get_next_imf_mask', 'get_mask_freqs']
 ROUTES = ['kw', 'cfg', 'func']
 NPROC = [1, 2, 3]
 
@@ -48,8 +48,10 @@ def grid():
     for v in VARIANTS:
         for r in ROUTES:
             for npr in NPROC:
-                if v in ('sift', 'sift_second_layer') and npr > 1:
+                if v in ('sift', 'sift_second_layer', 'get_mask_freqs') and npr > 1:
                     continue
+                if v in ('get_next_imf_mask', 'get_mask_freqs') and r != 'kw':
+                    continue   # stage-level helpers take keyword dicts only
                 for i in range(len(IMF)):
                     for e in range(len(ENV)):
                         for x in range(len(EXT)):
@@ -135,6 +137,7 @@ def run_cell(ctx, tr, cell, sigk):
     second = name in ('sift_second_layer', 'mask_sift_second_layer')
     if second:
         IA = np.abs(S.sift(x, max_imfs=2)) + 1
+    helper = name in ('get_next_imf_mask', 'get_mask_freqs')
     # assemble the call per route
     if route == 'kw' or (second and route == 'func'):
         opts = dict(imf_opts=I, envelope_opts=E, extrema_opts=X)
@@ -169,6 +172,10 @@ def run_cell(ctx, tr, cell, sigk):
                     sa['nprocesses'] = npr
                     sa['nphases'] = 3
                     S.mask_sift_second_layer(IA, [0.2, 0.08, 0.03, 0.01], sift_args=sa)
+            elif name == 'get_next_imf_mask':
+                S.get_next_imf_mask(x, 0.21, 0.6, nphases=3, nprocesses=npr, **opts)
+            elif name == 'get_mask_freqs':
+                S.get_mask_freqs(x[:, None], ['zc', 'if'][(i + e + xi) % 2], **opts)
             else:
                 func = getattr(S, name)
                 if cfg is None:
@@ -203,7 +210,7 @@ def run_cell(ctx, tr, cell, sigk):
         ctx.count('multiproc_calls')
         if len(workers) >= 2:
             ctx.count('multiproc_calls_with_2+_worker_pids')
-    if name not in ('sift', 'sift_second_layer') and not workers:
+    if name not in ('sift', 'sift_second_layer', 'get_mask_freqs') and not workers:
         ctx.count('pool_variant_without_worker_events')
     if not stages >= {'gni', 'env', 'ext'}:
         ctx.count('calls_missing_a_stage')
@@ -263,6 +270,8 @@ def finalize(agg, tier):
     names = sorted(set(v.split(':')[0] for v in VARIANTS))
     for n in names:
         for rt in ROUTES:
+            if n in ('get_next_imf_mask', 'get_mask_freqs') and rt != 'kw':
+                continue
             if c.get('cell:%s:%s' % (n, rt), 0) < 1:
                 r.append('no call for variant %s via route %s' % (n, rt))
     if c.get('multiproc_calls_with_2+_worker_pids', 0) < 10:
